@@ -66,8 +66,15 @@ type chain struct {
 	genApp  common.Hash
 	pruned  map[uint64]bool
 	maxTo   uint64 // largest end of a non-empty pruned range so far
+	deleted map[string]delInfo // membership fingerprint -> the PruneState call that deleted its record last
 	ops     []string
 	hits    map[string]int
+}
+
+// delInfo describes the PruneState call that removed a validator-set record.
+type delInfo struct {
+	from, to  uint64
+	protected bool // the genesis state or the state at `to` (present at that time) had this set as last, current or next set
 }
 
 func (c *chain) text() string { return strings.Join(c.ops, "\n") }
@@ -215,8 +222,8 @@ func (c *chain) restart(t ev.TB) {
 	var got cstate.LatestBlockState
 	where := fmt.Sprintf("Load at head %d", c.head)
 	if msg, frame := ev.Try(func() { got = cstate.NewStore(c.db).Load() }); msg != "" {
-		if which := c.missingSetRecord(c.head); c.maxTo > 0 && which != "" {
-			c.ctx(t, where, true).fail(keyPrune, "Load panics in %s (%s): the record of the head state's %s is gone", frame, msg, which)
+		if key, d := c.lostSet(c.head); key != "" {
+			c.ctx(t, where, true).fail(key, "Load panics in %s (%s): %s", frame, msg, d)
 		} else {
 			c.ctx(t, where, true).fail("panic:"+frame, "Load panics: %s", msg)
 		}
@@ -269,12 +276,58 @@ func (c *chain) hasTwin() bool {
 	return false
 }
 
+// lostSet files a load of height h that failed: "" when every set record its state record points at exists, else the
+// finding key. The listed prune finding is exactly: PruneState deleted the record of a set that neither the genesis
+// state nor the state at `to` mentions, and a kept state above still needs it. A deleted record that genesis or the
+// state at `to` did mention is another defect, and a record missing without any PruneState call yet another.
+func (c *chain) lostSet(h uint64) (key, detail string) {
+	role := c.missingSetRecord(h)
+	if role == "" {
+		return "", ""
+	}
+	want := map[string]setSnap{"LastValidators": c.saved[h].Last, "Validators": c.saved[h].Cur, "NextValidators": c.saved[h].Next}[role]
+	info, ok := c.deleted[want.fp()]
+	switch {
+	case !ok:
+		return "load.set-record-missing", fmt.Sprintf("the record of its %s does not exist (no PruneState call removed it)", role)
+	case info.protected:
+		return "prune.removes-protected-set", fmt.Sprintf("the record of its %s was deleted by PruneState(%d,%d) although genesis or the state at %d refers to that set", role, info.from, info.to, info.to)
+	}
+	return keyPrune, fmt.Sprintf("the record of its %s was deleted by PruneState(%d,%d)", role, info.from, info.to)
+}
+
 func (c *chain) kept(h uint64) bool { _, ok := c.saved[h]; return ok && !c.pruned[h] }
 
-// prune calls PruneState and records, independently of the store, which heights the caller asked to drop.
+// prune calls PruneState and records, independently of the store, which heights the caller asked to drop, and which
+// validator-set records the call removed (only used to file a later failure under the right key).
 func (c *chain) prune(t ev.TB, from, to uint64) {
 	c.logf("prune [%d,%d)", from, to)
+	sets := map[string]common.Hash{}
+	protected := map[string]bool{}
+	for h, st := range c.saved {
+		for _, s := range []setSnap{st.Last, st.Cur, st.Next} {
+			if s.Nil {
+				continue
+			}
+			sets[s.fp()] = s.RecKey
+			if h == 0 || h == to && c.kept(to) {
+				protected[s.fp()] = true
+			}
+		}
+	}
+	before := map[string]bool{}
+	for fp, k := range sets {
+		before[fp] = rawdb.ReadConsensusValidatorsInfo(c.db, k) != nil
+	}
 	ev.Guard(t, c.text, func() { c.store.PruneState(from, to) })
+	if c.deleted == nil {
+		c.deleted = map[string]delInfo{}
+	}
+	for fp, k := range sets {
+		if before[fp] && rawdb.ReadConsensusValidatorsInfo(c.db, k) == nil {
+			c.deleted[fp] = delInfo{from, to, protected[fp]}
+		}
+	}
 	for h := from; h < to; h++ {
 		if h >= 1 {
 			c.pruned[h] = true
@@ -310,8 +363,8 @@ func (c *chain) checkAll(t ev.TB) {
 			case (msg != "" || got == nil) && !hard:
 				ev.Class("soft:state-below-pruned-range-unloadable")
 			case msg != "":
-				if which := c.missingSetRecord(h); afterPrune && which != "" {
-					c.ctx(t, where, false).fail(keyPrune, "loading panics in %s (%s): the record of its %s is gone", frame, msg, which)
+				if key, d := c.lostSet(h); key != "" {
+					c.ctx(t, where, false).fail(key, "loading panics in %s (%s): %s", frame, msg, d)
 				} else {
 					c.ctx(t, where, false).fail("panic:"+frame, "loading panics: %s", msg)
 				}
@@ -333,20 +386,17 @@ func (c *chain) checkAll(t ev.TB) {
 			switch {
 			case err != nil && !hard:
 				ev.Class("soft:validators-below-pruned-range-unloadable")
-			case err != nil && afterPrune && c.missingSetRecord(h) == "LastValidators":
-				c.ctx(t, where, false).fail(keyPrune, "error %v although the height is at or above the end of every pruned range: the record of its LastValidators is gone", err)
+			case err != nil && c.missingSetRecord(h) == "LastValidators":
+				key, d := c.lostSet(h)
+				c.ctx(t, where, false).fail(key, "error %v: %s", err, d)
 			case err != nil && afterPrune:
 				c.ctx(t, where, false).fail("prune.kept-validators-unloadable", "error %v although the height is at or above the end of every pruned range", err)
 			case err != nil:
 				c.ctx(t, where, false).fail("loadvalidators.missing", "error %v for a saved height", err)
 			default:
-				if c.ctx(t, where, false).members("loadvalidators", vs, want) {
-					if g := snapSet(vs); g.samePriorities(want) && g.Proposer == want.Proposer {
-						ev.Class("loadvalidators.priorities-equal")
-					} else {
-						ev.Class("loadvalidators.priorities-differ(not asserted)")
-					}
-				}
+				// members, powers, order, and (as for the sets of a loaded state) priorities and proposer
+				c.ctx(t, where, false).set("loadvalidators", "the set", vs, want)
+				ev.Class("loadvalidators.compared")
 			}
 		} else if !kept && h >= 1 && err == nil && vs != nil {
 			// a pruned or never saved height that still answers: whatever comes back must be right
